@@ -67,6 +67,7 @@ class Profile:
     p_field_field: float = 0.15
     p_lit_left: float = 0.15
     redundant_parens: float = 0.2
+    p_const_pred: float = 0.04
 
 
 SALTS = [None, None, "", "s1", "exp_v1", "é", "a'b", 'x"y', "\\", "salt with spaces", "日本", "csdvs887", "%s{0}", "\\n"]
@@ -133,6 +134,9 @@ class ProgGen:
         self.features.add("op:" + op)
         if op in ("in", "not in"):
             r = rnd.random()
+            if rnd.random() < self.pf.p_const_pred:
+                self.features.add("literal-in-tuple")
+                return Cmp(self.lit(base), op, self.tuple_term(base, a))
             if r < self.pf.p_nested_tuple:
                 # tuple-valued field against a tuple of tuples
                 t = self.ident("t" + base)
@@ -155,6 +159,18 @@ class ProgGen:
             b = self.ident(base)
             self.features.add("field-field")
             return Cmp(Id(a), op, Id(b))
+        if rnd.random() < self.pf.p_const_pred:
+            # predicates without any field: literal against literal, tuple against tuple, a field against itself
+            k = rnd.random()
+            if k < 0.4:
+                self.features.add("literal-literal")
+                return Cmp(self.lit(base), op, self.lit(base))
+            if k < 0.7 and op in ("==", "!="):
+                self.features.add("tuple-tuple")
+                return Cmp(Tup(tuple(self.lit(base) for _ in range(rnd.randint(1, 3)))), op,
+                           Tup(tuple(self.lit(base) for _ in range(rnd.randint(1, 3)))))
+            self.features.add("field-itself")
+            return Cmp(Id(a), op, Id(a))
         if op in ("==", "!=") and rnd.random() < 0.12:
             # cross-kind equality is legal and simply false / true
             other = "str" if base == "num" else "num"
